@@ -188,12 +188,19 @@ def subpackage_api():
     return files
 
 
+SELECTIVE_YAML = {"type": "google.api.Service", "publishing": {"library_settings": [{"version": "google.example.sm.v1", "python_settings": {
+    "common": {"selective_gapic_generation": {"methods": ["google.example.sm.v1.Library.CreateBook", "google.example.sm.v1.Library.ListBooks",
+                                                          "google.example.sm.v1.Library.DrawShape"]}}}}]}}
+
+
 def battery():
     return [("same-short-resource-name", same_short_name_api(), "transport=grpc+rest", None),
             ("sub-packages", subpackage_api(), "transport=grpc,autogen-snippets=false", None),
             ("client-api", apis.client_api(), "transport=grpc+rest", None),
             ("retry-codes", apis.retry_api(), "transport=grpc", apis.RETRY_CONFIGS[1]),
             ("selective", apis.samples_api(), "transport=grpc+rest", None),
+            # selective generation (service yaml): the pruning pass rebuilds the message / enum maps of every file
+            ("selective-yaml", apis.samples_api(), "transport=grpc", {"__service_yaml__": SELECTIVE_YAML}),
             # one service polling three extended-operation services: a SET of services reaches the transport templates
             ("extended-operations", apis.compute_api(), "transport=rest", None),
             # a RELATIVE template directory is resolved against the installed gapic package, never against the working
@@ -211,7 +218,12 @@ def replay_request(label, seeds):
             os.makedirs(os.path.join(d, "templates"))
             with open(os.path.join(d, "templates", "NOTICE.txt.j2"), "w") as fh:
                 fh.write("an unrelated template directory of the caller's project\n")
-        if retry is not None:
+        if retry is not None and "__service_yaml__" in retry:
+            import json
+            p = os.path.join(d, "service.json")          # a JSON document is valid YAML
+            json.dump(retry["__service_yaml__"], open(p, "w"))
+            param += f",service-yaml={p}"
+        elif retry is not None:
             import json
             p = os.path.join(d, "retry.json")
             json.dump(retry, open(p, "w"))
